@@ -310,13 +310,27 @@ end
 
 /-! ### the model meets the specification -/
 
+theorem initFields_congr (a1 a2 : String → Val → Trace → Out) (h : ∀ n v tr, a1 n v tr = a2 n v tr)
+    (fs : List Fld) (v : Val) (tr : Trace) : initFields a1 fs v tr = initFields a2 fs v tr := by
+  induction fs generalizing tr with
+  | nil => rfl
+  | cons f fs ih => simp only [initFields, h, ih]
+
+theorem assignFields_congr (a1 a2 : String → Val → Trace → Out) (h : ∀ n v tr, a1 n v tr = a2 n v tr)
+    (fs : List Fld) (v : Val) (tr : Trace) : assignFields a1 fs v tr = assignFields a2 fs v tr := by
+  induction fs generalizing tr with
+  | nil => rfl
+  | cons f fs ih => simp only [assignFields, h, ih]
+
 theorem step_eq_refStep (c : Case) (v : Val) (tr : Trace) :
     step c (build c.tree) v tr = refStep c v tr := by
-  cases hm : c.mode <;>
-    simp [step, refStep, hm, isInit, siteInst, siteField, applyObj_build, initApply_eq_applyObj] <;>
-    (generalize ref _ _ _ _ _ = o; rcases o with ⟨r, t⟩; cases r <;> rfl)
+  cases hm : c.mode <;> simp only [step, refStep, hm, applyObj_build, initRun]
+  · rw [initFields_congr _ (fun name v tr => ref c.tree selfText (fieldText name) v tr)]
+    intro n v tr; rw [initApply_eq_applyObj, applyObj_build]
+  · rw [initFields_congr _ (fun name v tr => ref c.tree selfText (fieldText name) v tr)]
+    intro n v tr; rw [initApply_eq_applyObj, applyObj_build]
 
-theorem runInputs_congr (s1 s2 : Val → Trace → Out) (h : ∀ v tr, s1 v tr = s2 v tr)
+theorem runInputs_congr (s1 s2 : Val → Trace → List String × Trace) (h : ∀ v tr, s1 v tr = s2 v tr)
     (vs : List Val) (tr : Trace) : runInputs s1 vs tr = runInputs s2 vs tr := by
   induction vs generalizing tr with
   | nil => rfl
@@ -325,5 +339,12 @@ theorem runInputs_congr (s1 s2 : Val → Trace → Out) (h : ∀ v tr, s1 v tr =
 theorem model_eq_expected (c : Case) : model c = expected c := by
   simp only [model, expected]
   rw [runInputs_congr _ _ (step_eq_refStep c)]
+
+/-- each sharing field's `__init__` line hands the converter that field — never a sibling's: the stored values
+    and the calls are those of converting with (self, attr.<own name>) field by field -/
+theorem initFields_own_field (t : ConvTree) (fs : List Fld) (v : Val) (tr : Trace) :
+    initFields (fun name v tr => initApply (build t) v name tr) fs v tr
+      = initFields (fun name v tr => ref t selfText (fieldText name) v tr) fs v tr :=
+  initFields_congr _ _ (fun n v tr => by rw [initApply_eq_applyObj, applyObj_build]) fs v tr
 
 end Attrs.C19.Conv
